@@ -24,15 +24,14 @@ CLAIM = dict(
               "translator for dispatch tables, differential correspondence over a closed operand universe",
     design="7/C01")
 
-MODULES = ["Klong.Props.C01"]
+MODULES = ["Klong.Props.C01", "Klong.Props.C01Struct"]
 THEOREMS = [
     "Klong.C01.atomic_dyad_correct",
     "Klong.C01.atomic_monad_correct",
     "Klong.C01.dyad_in_model_correct",
     "Klong.C01.dispatch_covers_reference",
 ]
-# structural theorems (Klong.Props.C01Struct) are added to MODULES/THEOREMS once all are proved
-STRUCT_THEOREMS = [
+THEOREMS += [
     "Klong.C01.drop_correct",
     "Klong.C01.reverse_correct",
     "Klong.C01.rotate_correct",
@@ -234,15 +233,17 @@ def case_text(c):
 
 
 def np_shape(v):
-    """shape of the array numpy builds for the literal (object arrays included)"""
-    if v[0] != 'L':
-        return ()
-    if not v[1]:
-        return (0,)
-    cs = [np_shape(x) for x in v[1]]
-    if all(c == cs[0] for c in cs) and all((x[0] == 'L') == (v[1][0][0] == 'L') for x in v[1]):
-        return (len(v[1]),) + cs[0]
-    return (len(v[1]),)
+    """shape of the array numpy builds for the nest (object arrays included): a dimension is
+    added as long as ALL members at that depth are lists of one common length"""
+    shape = []
+    frontier = [v]
+    while frontier and all(x[0] == 'L' for x in frontier) and len({len(x[1]) for x in frontier}) == 1:
+        n = len(frontier[0][1])
+        shape.append(n)
+        if n == 0:
+            break
+        frontier = [y for x in frontier for y in x[1]]
+    return tuple(shape)
 
 
 def contains(v, pred):
